@@ -13,11 +13,13 @@ import FeVerif.Driver.Numpy
 import FeVerif.Driver.C02
 import FeVerif.Driver.Rtcm
 import FeVerif.Driver.Crc
+import FeVerif.Driver.Loader
+import FeVerif.Driver.Layout
 
 namespace FeVerif
 
 def dispatchers : List (String → List String → Option String) :=
-  [dispatchFrame, dispatchIndexer, dispatchFileIndex, dispatchReader, dispatchAngle, dispatchDataVersion, dispatchAlign, dispatchNumpy, dispatchC02, dispatchRtcm, dispatchCrc]
+  [dispatchFrame, dispatchIndexer, dispatchFileIndex, dispatchReader, dispatchAngle, dispatchDataVersion, dispatchAlign, dispatchNumpy, dispatchC02, dispatchRtcm, dispatchCrc, dispatchLoader, dispatchLayout]
 
 def dispatch (line : String) : String :=
   match line.splitOn " " with
